@@ -30,6 +30,7 @@ def install_sentinel():
             SENTINEL_HITS.append(('Boom',) + a)
     m.touch = touch
     m.Boom = Boom
+    m.touchdown = touch          # 'verif_sentinel.touch' is a proper substring of 'verif_sentinel.touchdown'
     touch.__module__ = 'verif_sentinel'
     Boom.__module__ = 'verif_sentinel'
     sys.modules['verif_sentinel'] = m
@@ -38,7 +39,12 @@ def install_sentinel():
 
 def fc_real(m, n, safe):
     from deepdiff import serialization as S
-    u = S._RestrictedUnpickler(io.BytesIO(b''), safe_to_import=safe or None)
+    spelled = safe or None
+    if safe and len(safe) == 1 and (hash((m, n)) & 1):
+        spelled = list(safe)[0]                    # a single name may be given as a plain string
+    elif safe and (hash((m, n)) & 2):
+        spelled = list(safe)                       # ... or any iterable
+    u = S._RestrictedUnpickler(io.BytesIO(b''), safe_to_import=spelled)
     try:
         r = u.find_class(m, n)
         return 'ok', r
@@ -94,7 +100,7 @@ def part_a(ctx):
     """find_class decision on names."""
     from deepdiff.serialization import SAFE_TO_IMPORT
     pairs = name_pairs(ctx)
-    safes = [(), ('verif_sentinel.touch',), ('os.path', 'Builtins.eval', 'builtins')]
+    safes = [(), ('verif_sentinel.touch',), ('os.path', 'Builtins.eval', 'builtins'), ('verif_sentinel.touchdown',), ('os.path.join',)]
     lines, meta = [], []
     for (m, n) in pairs:
         for si, safe in enumerate(safes if (m in ('verif_sentinel', 'os', 'builtins') or ctx.rng.random() < 0.05) else safes[:1]):
